@@ -59,6 +59,11 @@ def gen_decorator(rnd, idx, style):
         src = 'def %s(func, *args, **kwargs):\n    return (%r, len(args), func(**kwargs))\n' % (name, name)
         WD_OPTIONS[name] = 'use_varargs=False'
         return name, src, 0, [], [], 'wrapper_decorator_opts'
+    if style == 'wrapper_decorator_optk':
+        # wrapper_decorator(use_varkwargs=False): the wrapping function hands only *args on, and says so
+        src = 'def %s(func, *args, **kwargs):\n    return (%r, sorted(kwargs), func(*args))\n' % (name, name)
+        WD_OPTIONS[name] = 'use_varkwargs=False'
+        return name, src, 0, [], [], 'wrapper_decorator_opts'
     own = []
     if rnd.random() < 0.7:
         n_own = rnd.randint(0, 2)
@@ -106,8 +111,20 @@ def check_stack(ctx, case_seed):
         if style == 'wrapper_decorator_args' and (i != depth - 1 or (
                 sigs.positional_capacity(fparams) == 0 and not sigs.has_kind(fparams, VA))):
             style = 'wrapper_decorator'
+        if style == 'wrapper_decorator' and placement in ('function', 'staticmethod') and rnd.random() < 0.3:
+            # the keyword options of wrapper_decorator: a wrapping function that hands on only one of its star
+            # parameters and is declared so.  Only where the declaration can be honoured: no instance travels
+            # positionally through the layers, **kwargs alone can feed every parameter of the decorated function
+            # (none positional-only) / *args alone can (innermost layer, no required keyword-only parameter)
+            if not sigs.has_kind(fparams, PO) and rnd.random() < 0.5:
+                style = 'wrapper_decorator_opts'
+            elif i == depth - 1 and not [q for q in fparams if q[1] == KO and q[2] is None] and not [
+                    d for d in decos if d[5] == 'wrapper_decorator_opts']:
+                style = 'wrapper_decorator_optk'
+        if style in ('wrapper_decorator_opts', 'wrapper_decorator_optk'):
+            ctx.count('C13.wrapper_decorator_keyword_options')
         prev = decos[-1] if decos else None
-        if prev is not None and not prev[3] and not prev[4] and not prev[2] and style != 'wrapper_decorator_args' and rnd.random() < 0.3:
+        if prev is not None and prev[5] != 'wrapper_decorator_opts' and style not in ('wrapper_decorator_opts', 'wrapper_decorator_optk') and not prev[3] and not prev[4] and not prev[2] and style != 'wrapper_decorator_args' and rnd.random() < 0.3:
             # the very same wrapping function once more, on the neighbouring level (@twice @twice def f): only
             # for wrapping functions without parameters of their own (a name cannot be advertised twice)
             decos.append(prev[:5] + (style if style != 'wrapper_decorator_args' else prev[5],))
